@@ -51,6 +51,9 @@ type SignEnv struct {
 	// the parameters of evaluated helpers.
 	Role  func(v ssa.Value) string
 	bound map[ssa.Value]string
+
+	// Bool (optional) fixes the value of boolean leaves (flags such as a direction field).
+	Bool func(v ssa.Value) Tri
 }
 
 func (e *SignEnv) roleOf(v ssa.Value) string {
@@ -164,6 +167,11 @@ func (h Hist) pop() Hist {
 
 // Eval evaluates a condition in block blk entered along hist.
 func (e *SignEnv) Eval(v ssa.Value, blk *ssa.BasicBlock, hist Hist, depth int) Tri {
+	if e.Bool != nil {
+		if t := e.Bool(v); t != Unknown {
+			return t
+		}
+	}
 	switch x := v.(type) {
 	case *ssa.Const:
 		if x.Value != nil && x.Value.Kind() == constant.Bool {
